@@ -74,6 +74,11 @@ Et(v)  == IF Mag2(v) = Zero THEN Undef ELSE Div(Mul(v[4], Rho(v)), Mag(v))
 Mt2(v) == Sub(Sq(v[4]), Sq(v[3]))
 Mt(v)  == IF QSign(Mt2(v)) >= 0 THEN Sqrt(Mt2(v)) ELSE Undef
 
+\* the regular domain of C08: off the z axis, and (in 4-D) timelike and forward-pointing - where
+\* clamping, NaN-replacement and sign conventions are inert
+Regular(v) == /\ Add(Sq(v[1]), Sq(v[2])) # Zero
+              /\ (Len(v) = 4 => (QSign(Sub(Sq(v[4]), Add(Add(Sq(v[1]), Sq(v[2])), Sq(v[3])))) > 0 /\ QSign(v[4]) > 0))
+
 \* ----------------------------------------------------------- vector space
 VAdd(a, b) == [i \in 1..Len(a) |-> Add(a[i], b[i])]
 VSub(a, b) == [i \in 1..Len(a) |-> Sub(a[i], b[i])]
